@@ -612,6 +612,9 @@ def _r17h(rep):
                 for nm, o in zip(t.elts, outs):
                     if isinstance(nm, ast.Name):
                         env[nm.id] = o
+    for r in ast.walk(fn):
+        if isinstance(r, ast.Return) and r.value is not None and core.enclosing_function(r) is fn:
+            r.value = core.resolve_name(fn, r.value)  # `ret = (a, b, c, d); return ret`
     rets = [r for r in ast.walk(fn) if isinstance(r, ast.Return) and isinstance(r.value, ast.Tuple) and len(r.value.elts) == 4 and core.enclosing_function(r) is fn]
     if not rets:
         raise AnalysisError("R17h: sort_positions_by_symbols no longer returns (counts, symbols, positions, perm)")
